@@ -16,7 +16,7 @@ CHECKS["C01"] = dict(
    design="4 C01")
 CHECKS["C04"] = dict(
    technique="Coq proof (frame theorem: every constructor call, copy-on-write call and deepcopy, and every in-place operation on a frozen instance, writes no pre-existing heap cell whatever the outcome; the full statement is refuted for multi-keyword in-place update/transform and recorded as a known finding) + differential correspondence with failure injection, evaluated by vm_compute",
-   text="C04_atomic_partial_cow_and_constructors, C04_atomic_partial_frozen_inplace and C04_constructor_result_is_fresh are proved for every class table (no do_not_copy=True classes), heap, argument vector, callback failure point and error. The full statement (every operation, including _inplace=True on non-frozen receivers) is false of the code: C04_multi_keyword_inplace_update_refuted exhibits update(_inplace=True, a=ok, b=bad) committing a before failing on b (open finding). C04_atomic_partial_assignment and C04_atomic_partial_inplace_attribute_and_element_helpers prove the same for obj.a = v and for every attribute-level and element-level helper called with _inplace=True (with_/update_/transform_/reset_<attr>, with_/update_/transform_/without_<item> on list/dict/set attributes) on any instance when nothing is invalidated by the attribute. The remaining in-place cases (attributes with dependants, top-level update/transform/reset) are decided by the correspondence (model = implementation on canonical object graphs after every operation, ~60% of generated operations failing: ill-typed values at every position, missing index/key/element, unknown keywords, callbacks raising at their 1st..3rd invocation) and the C04 oracle evaluated in Coq on the implementation's own observations (pre-existing graph unchanged after an exception).",
+   text="C04_atomic_partial_cow_and_constructors, C04_atomic_partial_frozen_inplace and C04_constructor_result_is_fresh are proved for every class table (no do_not_copy=True classes), heap, argument vector, callback failure point and error. The full statement (every operation, including _inplace=True on non-frozen receivers) is false of the code: C04_multi_keyword_inplace_update_refuted exhibits update(_inplace=True, a=ok, b=bad) committing a before failing on b (open finding). C04_atomic_partial_assignment and C04_atomic_partial_inplace_attribute_and_element_helpers prove the same for obj.a = v and for every attribute-level and element-level helper called with _inplace=True (with_/update_/transform_/reset_<attr>, with_/update_/transform_/without_<item> on list/dict/set attributes) on any instance when nothing is invalidated by the attribute; C04_atomic_partial_inplace_update_single_keyword / _transform_single_keyword do so for the top-level update(a=v, _inplace=True) / transform(a=f, _inplace=True) with exactly one keyword. The remaining in-place cases (attributes with dependants, top-level update/transform with several keywords, reset) are decided by the correspondence (model = implementation on canonical object graphs after every operation, ~60% of generated operations failing: ill-typed values at every position, missing index/key/element, unknown keywords, callbacks raising at their 1st..3rd invocation) and the C04 oracle evaluated in Coq on the implementation's own observations (pre-existing graph unchanged after an exception).",
    note="Trusted: Coq kernel + vm_compute; hand-written model (validated by correspondence); harness canonicaliser; callback purity. Partial: in-place operations on non-frozen instances are not covered by a theorem. Known findings: KNOWN_FINDINGS.json (multi-keyword in-place update/transform).",
    design="4 C04")
 CHECKS["C07"] = dict(
